@@ -52,13 +52,17 @@ func (c matcherCase) String() string {
 
 var ops = []string{"=", "!=", "=~", "!~"}
 
-// promPool is the pool of stored label sets; a database is any subset of <= 4 of them.  ax / xy probe unanchored
+// promPool is the pool of stored series; a database is any subset of <= 4 of them.  ax / xy probe unanchored
 // regular expressions, the series without a / b probe absent labels, "x.*" is a literal value with regex characters.
+// Fingerprints ascend with the pool index (rows arrive ordered by fingerprint), #4 repeats the label set of #0
+// (adjacent when nothing of #1..#3 is in the database, otherwise with other selected series between the two),
+// series have 1, 2 or 3 samples inside the window, #1 has two index rows.
 var promPool = []map[string]string{
 	{"__name__": "m", "a": "x"},
 	{"__name__": "m", "a": "y", "b": "x"},
 	{"__name__": "m", "a": "ax"},
 	{"__name__": "m"},
+	{"__name__": "m", "a": "x"}, // the label set of #0 again, stored under another (larger) fingerprint
 	{"__name__": "x", "a": "x", "b": "y"},
 	{"__name__": "m", "b": "xy"},
 	{"__name__": "xm", "a": "x.*"},
@@ -121,10 +125,13 @@ const (
 func promMatcherDB(idx []int) *MetricDB {
 	db := &MetricDB{}
 	for _, i := range idx {
-		v := float64(i + 1)
-		db.Series = append(db.Series, MSeries{Labels: promPool[i], Samples: []model.Sample{
-			{TimestampMs: baseMs - 100_000, Value: v}, {TimestampMs: baseMs + 10_000, Value: v + 0.25},
-			{TimestampMs: baseMs + 20_000, Value: v + 0.5}, {TimestampMs: baseMs + 100_000, Value: v + 0.75}}})
+		v := float64(100 * (i + 1))
+		smp := []model.Sample{{TimestampMs: baseMs - 100_000 + int64(i), Value: v}}
+		for k := 0; k <= i%3; k++ { // 1..3 samples inside the window, at times no other series uses
+			smp = append(smp, model.Sample{TimestampMs: baseMs + 5_000 + int64(k)*7_000 + int64(i)*100, Value: v + float64(k+1)})
+		}
+		smp = append(smp, model.Sample{TimestampMs: baseMs + 100_000 + int64(i), Value: v + 9})
+		db.Series = append(db.Series, MSeries{Labels: promPool[i], Samples: smp, Fp: uint64(10 * (i + 1)), TwoIndexRows: i == 1})
 	}
 	return db
 }
@@ -161,34 +168,111 @@ func checkPromMatcherCase(real *realStore, db *MetricDB, c matcherCase) (class, 
 	if err != nil {
 		return "matchers:select_error", "Select fails: " + err.Error(), "error"
 	}
-	want := refSelect(db, &storage.SelectHints{Start: selStart, End: selEnd}, ms)
+	hints := &storage.SelectHints{Start: selStart, End: selEnd}
+	want := refSelect(db, hints, ms)
 	gotSet, wantSet := map[string]bool{}, map[string]bool{}
+	gotBy := map[string][][]model.Sample{}
 	for _, s := range got {
 		k := s.Labels.String()
-		if gotSet[k] {
-			return "matchers:series_handed_twice", "series " + k + " is returned twice", "mismatch"
-		}
 		gotSet[k] = true
+		gotBy[k] = append(gotBy[k], s.Samples)
 	}
-	for _, s := range want {
-		wantSet[s.Labels.String()] = true
-	}
-	outcome = fmt.Sprintf("selected_%d_of_%d", len(wantSet), len(db.Series))
-	if d := matcherDeviation(db, ms, gotSet); d != "" {
-		return "matchers:" + strings.TrimPrefix(strings.ReplaceAll(d, "matcher_", ""), "matchers:"),
-			fmt.Sprintf("selected %v, Prometheus semantics select %v", keys(gotSet), keys(wantSet)), "mismatch"
-	}
-	// same series: each under its own label set with exactly the in-range samples, ascending
 	wantBy := map[string][]model.Sample{}
 	for _, s := range want {
+		wantSet[s.Labels.String()] = true
 		wantBy[s.Labels.String()] = s.Samples
 	}
-	for _, s := range got {
-		if !samplesEqual(s.Samples, wantBy[s.Labels.String()]) {
-			return "matchers:samples_of_selected_series", fmt.Sprintf("series %s carries %v, stored in range: %v", s.Labels, s.Samples, wantBy[s.Labels.String()]), "mismatch"
+	outcome = fmt.Sprintf("selected_%d_of_%d", len(wantSet), len(db.Series))
+	var causes, details []string
+	if d := matcherDeviation(db, ms, gotSet); d != "" {
+		causes = append(causes, strings.Split(strings.ReplaceAll(d, "matcher_", ""), "+")...)
+		details = append(details, fmt.Sprintf("selected %v, Prometheus semantics select %v", keys(gotSet), keys(wantSet)))
+	}
+	// every returned series: under its own label set, with exactly the samples stored for that label set inside
+	// the window, ascending — whatever else is selected by the same call
+	stored := map[string][][]model.Sample{} // label set -> in-window samples per fingerprint, in fingerprint order
+	for _, s := range db.Series {
+		var in []model.Sample
+		for _, p := range s.Samples {
+			if p.TimestampMs >= selStart && p.TimestampMs <= selEnd {
+				in = append(in, p)
+			}
+		}
+		stored[s.lset().String()] = append(stored[s.lset().String()], in)
+	}
+	for k, copies := range gotBy {
+		parts := stored[k]
+		switch {
+		case len(parts) == 0:
+			causes = append(causes, "series_with_unknown_label_set")
+			details = append(details, "returned label set "+k+" is not stored")
+		case len(copies) == 1 && len(parts) == 1:
+			if !samplesEqual(copies[0], parts[0]) {
+				causes = append(causes, "samples_of_selected_series")
+				details = append(details, fmt.Sprintf("series %s carries %v, stored in the window: %v", k, copies[0], parts[0]))
+			}
+		case len(copies) == 1:
+			// several fingerprints, one series: must be the merged one
+			if !samplesEqual(copies[0], mergeSamples(parts)) {
+				causes = append(causes, "samples_of_selected_series")
+				details = append(details, fmt.Sprintf("series %s (stored under %d fingerprints) carries %v, stored in the window: %v", k, len(parts), copies[0], mergeSamples(parts)))
+			}
+		default:
+			// the label set is handed to the engine more than once.  Documented deviant rule (ReshuffleSeries
+			// merges the later fingerprints into the first but keeps them in the list): first copy = union,
+			// the others = their own rows
+			expect := [][]model.Sample{mergeSamples(parts)}
+			expect = append(expect, parts[1:]...)
+			if len(parts) > 1 && sameSampleLists(copies, expect) {
+				causes = append(causes, "duplicate_label_set_handed_twice")
+				details = append(details, fmt.Sprintf("label set %s, stored under %d fingerprints, reaches the engine %d times (merged + the later fingerprints again)", k, len(parts), len(copies)))
+			} else {
+				causes = append(causes, "series_handed_twice")
+				details = append(details, fmt.Sprintf("label set %s is returned %d times with %v; stored per fingerprint: %v", k, len(copies), copies, parts))
+			}
 		}
 	}
-	return "", "", outcome
+	if len(causes) == 0 {
+		return "", "", outcome
+	}
+	sort.Strings(causes)
+	uniq := causes[:0]
+	for i, x := range causes {
+		if i == 0 || x != causes[i-1] {
+			uniq = append(uniq, x)
+		}
+	}
+	return "matchers:" + strings.Join(uniq, "+"), strings.Join(details, "; "), "mismatch"
+}
+
+func mergeSamples(parts [][]model.Sample) []model.Sample {
+	var out []model.Sample
+	for _, p := range parts {
+		out = append(out, p...)
+	}
+	sort.SliceStable(out, func(a, b int) bool { return out[a].TimestampMs < out[b].TimestampMs })
+	return out
+}
+
+// sameSampleLists compares two collections of sample lists as multisets.
+func sameSampleLists(a, b [][]model.Sample) bool {
+	if len(a) != len(b) {
+		return false
+	}
+	used := make([]bool, len(b))
+	for _, x := range a {
+		found := false
+		for j, y := range b {
+			if !used[j] && samplesEqual(x, y) {
+				used[j], found = true, true
+				break
+			}
+		}
+		if !found {
+			return false
+		}
+	}
+	return true
 }
 
 func keys(m map[string]bool) []string {
@@ -419,7 +503,7 @@ func checkProfCase(ps *profStore, c matcherCase) (class, what, outcome string) {
 
 func checkMatchers(r *ev.Run, viol *violations) {
 	thorough := r.Thorough()
-	poolN := 5
+	poolN := 5 // #0..#4: includes the label set stored under two fingerprints
 	if thorough {
 		poolN = len(promPool)
 	}
